@@ -8,7 +8,7 @@ import re
 
 import z3
 
-from sym import (AggV, BoolV, Cell, EngineAbort, Event, IntV, MovedV, OpaqueV, Outcome, RefV, StrV, UnitV, FnV)
+from sym import (AggV, BoolV, Cell, EngineAbort, Event, IntV, ItemCell, MovedV, OpaqueV, Outcome, RefV, StrV, UnitV, FnV)
 
 
 def deref_ref(eng, st, r):
@@ -186,6 +186,7 @@ def install_common(eng):
       lambda e, st, c, a, d: Outcome(diverge="panic!() reached: " + c))
     install_std_extras(eng)
     install_iter_extras(eng)
+    install_more_extras(eng)
 
 
 
@@ -201,6 +202,14 @@ def find_closure_fn(eng, callee, clo=None):
         ms = re.findall(r"(\{closure@[^}]*\})", callee)
         text = ms[-1] if ms else None
     if text is None:
+        # a plain function passed where a closure is expected: `opt.and_then(half)`
+        m = re.search(r"(?:fn|for<[^>]*> fn)\([^{}]*\{([\w:<>]+)\}", callee)
+        fnv = clo if isinstance(clo, FnV) else None
+        cand = getattr(fnv, "name", None) or (m.group(1) if m else None)
+        if cand:
+            f = eng.find_fn(cand) or next((fn for name, fn in eng.funcs.items() if hasattr(fn, "blocks") and name.split("::")[-1] == cand.split("::")[-1]), None)
+            if f is not None:
+                return f
         raise EngineAbort("no closure type in %r" % callee)
     for name, fn in eng.funcs.items():
         if "{closure#" in name and fn.args and text in fn.args[0][1]:
@@ -217,12 +226,21 @@ def call_closure(eng, st, callee, clo, args, wrap):
     """run closure `clo(args...)` synchronously and map its result with `wrap(state, value)`"""
     fn = find_closure_fn(eng, callee, clo)
     outs = []
-    for s2, r in eng.call_sync(st, fn, [_clo_arg(fn, clo)] + list(args)):
+    is_closure = "{closure" in fn.name
+    for s2, r in eng.call_sync(st, fn, ([_clo_arg(fn, clo)] if is_closure else []) + list(args)):
         if s2.status != "running":
             outs.append((s2, None, []))
         else:
             outs.append((s2, wrap(s2, r), []))
     return ("states", outs)
+
+
+def item_ref(eng, st, container, k):
+    """reference to the k-th element that writes through to the container"""
+    o = deref_ref(eng, st, container)
+    if not ((isinstance(o, OpaqueV) and "items" in o.attrs) or (isinstance(o, AggV) and o.ty == "array")):
+        raise EngineAbort("not a list-like value: %r" % (o,))
+    return RefV(ItemCell(o, k))
 
 
 def items_of(eng, st, v):
@@ -308,7 +326,7 @@ def install_std_extras(eng):
             it = items_of(eng, st, args[0])
             if not it:
                 return Outcome(none())
-            return Outcome(some(RefV(Cell(it[0 if first else -1]))))
+            return Outcome(some(item_ref(eng, st, args[0], 0 if first else len(it) - 1)))
         return h
     S(r"^(Vec::<.*>|core::slice::<impl \[.*\]>)::last(_mut)?$", s_last(False))
     S(r"^(Vec::<.*>|core::slice::<impl \[.*\]>)::first(_mut)?$", s_last(True))
@@ -347,10 +365,38 @@ def install_std_extras(eng):
     S(r"^(core::num::<impl \w+>|\w+)::wrapping_sub$", lambda e, st, c, a, d: Outcome(IntV(e.wrap(a[0].t - a[1].t, a[0].ty), a[0].ty)))
     S(r"^<\w+ as Ord>::min$|^(std|core)::cmp::Ord::min$", lambda e, st, c, a, d: Outcome(IntV(z3.If(a[1].t < a[0].t, a[1].t, a[0].t), a[0].ty)))
     S(r"^<\w+ as Ord>::max$|^(std|core)::cmp::Ord::max$", lambda e, st, c, a, d: Outcome(IntV(z3.If(a[1].t >= a[0].t, a[1].t, a[0].t), a[0].ty)))
-    S(r"^(core::num::<impl \w+>|\w+)::div_ceil$", lambda e, st, c, a, d: Outcome(IntV(z3.If(a[0].t % a[1].t > 0, a[0].t / a[1].t + 1, a[0].t / a[1].t), a[0].ty)))
+    S(r"^(core::num::<impl \w+>|\w+)::div_ceil$", lambda e, st, c, a, d: [
+        Outcome(IntV(z3.If(a[0].t % a[1].t > 0, a[0].t / a[1].t + 1, a[0].t / a[1].t), a[0].ty), [a[1].t != 0]),
+        Outcome(diverge="attempt to divide by zero", conds=[a[1].t == 0])])
     S(r"^(core::num::<impl \w+>|\w+)::abs_diff$", lambda e, st, c, a, d: Outcome(IntV(z3.If(a[0].t >= a[1].t, a[0].t - a[1].t, a[1].t - a[0].t), a[0].ty)))
     S(r"^<(u8|u16|u32|u64|usize|i32|i64) as (From|Into)<.*>>::(from|into)$|^<(u8|u16|u32|u64|usize) as TryFrom<.*>>::try_from$",
       lambda e, st, c, a, d: Outcome(a[0] if "Try" not in c else AggV("Result", 0, [a[0]], "Ok")))
+
+    # `&T == &T` compares the referents (derived PartialEq on enums with payloads goes through this)
+    def s_ref_eq(eng, st, callee, args, dty):
+        a, b = deref_ref(eng, st, args[0]), deref_ref(eng, st, args[1])
+        a, b = deref_ref(eng, st, a), deref_ref(eng, st, b)
+        neg = callee.endswith("::ne")
+        if isinstance(a, (IntV, BoolV)) and isinstance(b, (IntV, BoolV)):
+            t = a.t == b.t
+            return Outcome(BoolV(z3.Not(t) if neg else t))
+        raise EngineAbort("reference comparison of %r" % (a,))
+    S(r"^<&(mut )?(u8|u16|u32|u64|usize|i8|i16|i32|i64|isize|bool) as PartialEq(<&.*>)?>::(eq|ne)$", s_ref_eq)
+
+    # vec![a, b, c] (array literal moved into a fresh box, then into a Vec)
+    def s_new_uninit(eng, st, callee, args, dty):
+        slot = AggV("MaybeDangling", None, [MovedV()])
+        mu = AggV("MaybeUninit", None, [UnitV(), AggV("ManuallyDrop", None, [slot])])
+        return Outcome(AggV("Box", None, [AggV("Unique", None, [RefV(Cell(mu))])]))
+    S(r"^Box::<\[.*\]>::new_uninit$", s_new_uninit)
+
+    def s_box_into_vec(eng, st, callee, args, dty):
+        mu = deref_ref(eng, st, args[0].fields[0].fields[0])
+        arr = mu.fields[1].fields[0].fields[0]
+        if not isinstance(arr, AggV):
+            raise EngineAbort("vec! literal: box content was not initialised with an array")
+        return Outcome(OpaqueV("Vec", None, {"items": list(arr.fields)}))
+    S(r"^std::boxed::box_assume_init_into_vec_unsafe::<", s_box_into_vec)
 
     # io::Error kinds: a symbolic kind per error value unless the model pinned one; comparisons are deterministic
     def _kind_of(eng, st, v):
@@ -506,6 +552,13 @@ def install_iter_extras(eng, order_key=None):
                     best = z3.If((x.t >= best) if want_max else (x.t < best), x.t, best)
                 st.ghost["recognised"] = list(items)
                 return Outcome(some(IntV(best, items[0].ty)))
+            der = [deref_ref(eng, st, x) if isinstance(x, RefV) else None for x in items]
+            if all(isinstance(x, IntV) for x in der):
+                # iterating by reference: the answer is a reference to (a copy of) the extreme element
+                best = der[0].t
+                for x in der[1:]:
+                    best = z3.If((x.t >= best) if want_max else (x.t < best), x.t, best)
+                return Outcome(some(RefV(Cell(IntV(best, der[0].ty)))))
             order_key = getattr(eng, "order_key", None)
             if order_key is None:
                 raise EngineAbort("max/min over non-integer items without an ordering model")
@@ -527,6 +580,37 @@ def install_iter_extras(eng, order_key=None):
         return h
     S(r"^<.* as Iterator>::max$", s_max(True))
     S(r"^<.* as Iterator>::min$", s_max(False))
+
+    # by-reference iteration over list-like values: the items are write-through references
+    def s_iter(eng, st, callee, args, dty):
+        n = len(items_of(eng, st, args[0]))
+        return Outcome(list_iter([item_ref(eng, st, args[0], k) for k in range(n)]))
+    S(r"^(Vec::<.*>|core::slice::<impl \[.*\]>)::iter(_mut)?$", s_iter)
+    S(r"^<.* as Iterator>::(copied|cloned)::<", lambda e, st, c, a, d: Outcome(list_iter([deref_ref(e, st, x) for x in iter_items(e, st, a[0])])))
+    S(r"^<.* as Iterator>::rev$|^<.* as DoubleEndedIterator>::rev$", lambda e, st, c, a, d: Outcome(list_iter(list(reversed(iter_items(e, st, a[0]))))))
+    S(r"^<.* as Iterator>::enumerate$", lambda e, st, c, a, d: Outcome(list_iter([AggV("tuple", None, [IntV(k, "usize"), x]) for k, x in enumerate(iter_items(e, st, a[0]))])))
+
+    def s_sum(eng, st, callee, args, dty):
+        items = [deref_ref(eng, st, x) if isinstance(x, RefV) else x for x in iter_items(eng, st, args[0])]
+        if not all(isinstance(x, IntV) for x in items):
+            raise EngineAbort("sum over non-integers")
+        from sym import int_range
+        m = re.search(r"sum::<(\w+)>", callee)
+        ty = m.group(1) if m else (items[0].ty if items else "u64")
+        tot = z3.IntVal(0)
+        for x in items:
+            tot = tot + x.t
+        lo, hi = int_range(ty)
+        return [Outcome(IntV(tot, ty), [tot <= hi, tot >= lo]), Outcome(diverge="attempt to add with overflow", conds=[z3.Or(tot > hi, tot < lo)])]
+    S(r"^<.* as Iterator>::sum::<", s_sum)
+
+    def s_skip_take(eng, st, callee, args, dty):
+        n = eng.concrete_int(st, args[1])
+        if n is None:
+            raise EngineAbort("skip/take with a symbolic count")
+        items = iter_items(eng, st, args[0])
+        return Outcome(list_iter(items[n:] if "::skip" in callee else items[:n]))
+    S(r"^<.* as Iterator>::(skip|take)$", s_skip_take)
     S(r"^<.* as Iterator>::count$", lambda e, st, c, a, d: Outcome(IntV(len(iter_items(e, st, a[0])), "usize")))
     S(r"^<.* as Iterator>::last$", lambda e, st, c, a, d: Outcome(some(iter_items(e, st, a[0])[-1]) if iter_items(e, st, a[0]) else none()))
     S(r"^<.* as Iterator>::collect::<Vec<", lambda e, st, c, a, d: Outcome(OpaqueV("Vec", None, {"items": list(iter_items(e, st, a[0]))})))
@@ -596,3 +680,220 @@ def install_iter_extras(eng, order_key=None):
             raise EngineAbort("forking drop inside mem::drop")
         return Outcome(UnitV())
     S(r"^(std::mem::|core::mem::)?drop::<", s_drop)
+
+
+def install_more_extras(eng):
+    """second batch of fallback summaries (validated by the self-test corpus): Option/bool helpers, Vec/slice access"""
+    S = lambda rx, h: eng.add_summary(rx, h, fallback=True)
+    some = lambda v: AggV("Option", 1, [v], "Some")
+    none = lambda: AggV("Option", 0, [], "None")
+
+    def opt_variants(eng, st, v, callee):
+        m = re.match(r"^Option::<(.*?)>::\w+", callee, re.S)
+        return variants(eng, st, v, ("Option<%s>" % m.group(1)) if m else None)
+
+    def s_or(eng, st, callee, args, dty):
+        outs = []
+        for cond, v in opt_variants(eng, st, args[0], callee):
+            outs.append(Outcome(v if v.vname == "Some" else args[1], [cond] if cond is not None else []))
+        return outs
+    S(r"^Option::<.*>::or$", s_or)
+
+    def s_xor(eng, st, callee, args, dty):
+        outs = []
+        for c1, a in opt_variants(eng, st, args[0], callee):
+            for c2, b in opt_variants(eng, st, args[1], callee):
+                r = a if (a.vname == "Some" and b.vname == "None") else b if (a.vname == "None" and b.vname == "Some") else none()
+                outs.append(Outcome(r, [c for c in (c1, c2) if c is not None]))
+        return outs
+    S(r"^Option::<.*>::xor$", s_xor)
+
+    def s_and(eng, st, callee, args, dty):
+        return [Outcome(args[1] if v.vname == "Some" else none(), [c] if c is not None else []) for c, v in opt_variants(eng, st, args[0], callee)]
+    S(r"^Option::<.*>::and::<", s_and)
+
+    def s_zip(eng, st, callee, args, dty):
+        outs = []
+        for c1, a in opt_variants(eng, st, args[0], callee):
+            for c2, b in variants(eng, st, args[1], None):
+                r = some(AggV("tuple", None, [a.fields[0], b.fields[0]])) if (a.vname == "Some" and b.vname == "Some") else none()
+                outs.append(Outcome(r, [c for c in (c1, c2) if c is not None]))
+        return outs
+    S(r"^Option::<.*>::zip::<", s_zip)
+
+    def conc(eng, st, v, callee):
+        vs = opt_variants(eng, st, v, callee)
+        if len(vs) != 1 or vs[0][0] is not None:
+            raise EngineAbort("closure-taking combinator on a symbolic enum")
+        return vs[0][1]
+
+    def s_filter(eng, st, callee, args, dty):
+        v = conc(eng, st, args[0], callee)
+        if v.vname == "None":
+            return Outcome(none())
+        fn = find_closure_fn(eng, callee, args[1])
+        outs = []
+        for s2, r in eng.call_sync(st, fn, [_clo_arg(fn, args[1]), RefV(Cell(v.fields[0]))]):
+            if s2.status != "running":
+                outs.append((s2, None, []))
+                continue
+            # the payload must be re-read from the clone's memory: plain values only
+            if not isinstance(v.fields[0], (IntV, BoolV, UnitV)):
+                raise EngineAbort("Option::filter on a non-scalar payload")
+            sat_t, _ = eng.check(s2.pc + [r.t])
+            sat_f, _ = eng.check(s2.pc + [z3.Not(r.t)])
+            if sat_t and sat_f:
+                keep = s2.clone()
+                keep.pc.append(r.t)
+                outs.append((keep, some(v.fields[0]), []))
+            elif sat_t:
+                outs.append((s2, some(v.fields[0]), []))
+                continue
+            if sat_f:
+                s2.pc.append(z3.Not(r.t))
+                outs.append((s2, none(), []))
+        return ("states", outs)
+    S(r"^Option::<.*>::filter::<", s_filter)
+
+    def s_map_or(eng, st, callee, args, dty):
+        v = conc(eng, st, args[0], callee)
+        if v.vname == "None":
+            return Outcome(args[1])
+        return call_closure(eng, st, callee, args[2], [v.fields[0]], lambda s2, r: r)
+    S(r"^Option::<.*>::map_or::<", s_map_or)
+
+    def s_map_or_else(eng, st, callee, args, dty):
+        v = conc(eng, st, args[0], callee)
+        if v.vname == "None":
+            return call_closure(eng, st, callee, args[1], [], lambda s2, r: r)
+        return call_closure(eng, st, callee, args[2], [v.fields[0]], lambda s2, r: r)
+    S(r"^Option::<.*>::map_or_else::<", s_map_or_else)
+
+    def s_or_else(eng, st, callee, args, dty):
+        v = conc(eng, st, args[0], callee)
+        if v.vname == "Some":
+            return Outcome(v)
+        return call_closure(eng, st, callee, args[1], [], lambda s2, r: r)
+    S(r"^Option::<.*>::or_else::<", s_or_else)
+
+    def s_unwrap_or_default(eng, st, callee, args, dty):
+        outs = []
+        for cond, v in variants(eng, st, args[0], None):
+            if v.vname in ("Some", "Ok"):
+                outs.append(Outcome(v.fields[0], [cond] if cond is not None else []))
+            else:
+                m = re.search(r"::<(u8|u16|u32|u64|usize|i32|i64|bool)(,|>)", callee)
+                if not m:
+                    raise EngineAbort("unwrap_or_default: no default for %s" % callee)
+                d = BoolV(False) if m.group(1) == "bool" else IntV(0, m.group(1))
+                outs.append(Outcome(d, [cond] if cond is not None else []))
+        return outs
+    S(r"^(Option|Result)::<.*>::unwrap_or_default$", s_unwrap_or_default)
+
+    # bool::then / then_some
+    def s_then_some(eng, st, callee, args, dty):
+        b = args[0]
+        return [Outcome(some(args[1]), [b.t]), Outcome(none(), [z3.Not(b.t)])]
+    S(r"^(core::bool::<impl bool>|bool)::then_some::<", s_then_some)
+
+    def s_then(eng, st, callee, args, dty):
+        b = args[0]
+        sat_t, _ = eng.check(st.pc + [b.t])
+        sat_f, _ = eng.check(st.pc + [z3.Not(b.t)])
+        if sat_f and not sat_t:
+            return Outcome(none())
+        outs = []
+        if sat_f:
+            sf = st.clone()
+            sf.pc.append(z3.Not(b.t))
+            outs.append((sf, none(), []))
+            st.pc.append(b.t)
+        r = call_closure(eng, st, callee, args[1], [], lambda s2, r: some(r))
+        return ("states", outs + r[1])
+    S(r"^(core::bool::<impl bool>|bool)::then::<", s_then)
+
+    # Vec / slice element access (concrete length per path; a symbolic index is split over the positions)
+    def s_index(eng, st, callee, args, dty):
+        items = items_of(eng, st, args[0])
+        i = args[1]
+        outs = []
+        for k, it in enumerate(items):
+            outs.append(Outcome(item_ref(eng, st, args[0], k), [i.t == k]))
+        outs.append(Outcome(diverge="index out of bounds", conds=[z3.Or(i.t < 0, i.t >= len(items))]))
+        return outs
+    S(r"^<(Vec<.*>|\[.*\]) as Index(Mut)?<usize>>::index(_mut)?$", s_index)
+
+    S(r"^<(Vec<.*>|\[.*\]) as Index(Mut)?<RangeFull>>::index(_mut)?$", lambda e, st, c, a, d: Outcome(a[0]))
+
+    def s_get(eng, st, callee, args, dty):
+        items = items_of(eng, st, args[0])
+        i = args[1]
+        outs = [Outcome(some(item_ref(eng, st, args[0], k)), [i.t == k]) for k, it in enumerate(items)]
+        outs.append(Outcome(none(), [z3.Or(i.t < 0, i.t >= len(items))]))
+        return outs
+    S(r"^(Vec::<.*>|core::slice::<impl \[.*\]>)::get::<usize>$", s_get)
+
+    def s_contains(eng, st, callee, args, dty):
+        items = items_of(eng, st, args[0])
+        x = deref_ref(eng, st, args[1])
+        if not all(isinstance(it, (IntV, BoolV)) for it in items) or not isinstance(x, (IntV, BoolV)):
+            raise EngineAbort("contains on non-scalar items")
+        return Outcome(BoolV(z3.Or([it.t == x.t for it in items]) if items else z3.BoolVal(False)))
+    S(r"^(Vec::<.*>|core::slice::<impl \[.*\]>)::contains$", s_contains)
+
+    def s_clear(eng, st, callee, args, dty):
+        del items_of(eng, st, args[0])[:]
+        return Outcome(UnitV())
+    S(r"^Vec::<.*>::clear$", s_clear)
+
+    def s_truncate(eng, st, callee, args, dty):
+        n = eng.concrete_int(st, args[1])
+        if n is None:
+            raise EngineAbort("Vec::truncate with a symbolic length")
+        del items_of(eng, st, args[0])[n:]
+        return Outcome(UnitV())
+    S(r"^Vec::<.*>::truncate$", s_truncate)
+
+    def s_insert(eng, st, callee, args, dty):
+        n = eng.concrete_int(st, args[1])
+        items = items_of(eng, st, args[0])
+        if n is None:
+            raise EngineAbort("Vec::insert at a symbolic position")
+        if n > len(items):
+            return Outcome(diverge="insertion index out of bounds")
+        items.insert(n, args[2])
+        return Outcome(UnitV())
+    S(r"^Vec::<.*>::insert$", s_insert)
+
+    def s_remove(eng, st, callee, args, dty):
+        n = eng.concrete_int(st, args[1])
+        items = items_of(eng, st, args[0])
+        if n is None:
+            raise EngineAbort("Vec::remove at a symbolic position")
+        if n >= len(items):
+            return Outcome(diverge="removal index out of bounds")
+        return Outcome(items.pop(n))
+    S(r"^Vec::<.*>::remove$", s_remove)
+
+    # time / scheduling helpers: no observable effect in the model
+    S(r"^std::thread::(sleep|yield_now)$", lambda e, st, c, a, d: Outcome(UnitV()))
+    S(r"^(std::time::)?Duration::from_(secs|millis|micros|nanos)$", lambda e, st, c, a, d: Outcome(OpaqueV("Duration", None, {})))
+    S(r"^(std::time::)?Instant::now$", lambda e, st, c, a, d: Outcome(OpaqueV("Instant", None, {})))
+
+    # integer helpers
+    def s_clamp(eng, st, callee, args, dty):
+        x, lo, hi = args
+        return [Outcome(IntV(z3.If(x.t < lo.t, lo.t, z3.If(x.t > hi.t, hi.t, x.t)), x.ty), [lo.t <= hi.t]),
+                Outcome(diverge="clamp: min > max", conds=[lo.t > hi.t])]
+    S(r"^<\w+ as Ord>::clamp$|^(std|core)::cmp::Ord::clamp$", s_clamp)
+    S(r"^(core::num::<impl \w+>|\w+)::is_power_of_two$", lambda e, st, c, a, d: Outcome(BoolV(z3.Or([a[0].t == (1 << k) for k in range(64)]))))
+
+    def s_next_multiple_of(eng, st, callee, args, dty):
+        from sym import int_range
+        x, m = args
+        r = z3.If(x.t % m.t == 0, x.t, x.t + (m.t - x.t % m.t))
+        lo, hi = int_range(x.ty)
+        return [Outcome(IntV(r, x.ty), [m.t != 0, r <= hi]),
+                Outcome(diverge="next_multiple_of: zero or overflow", conds=[z3.Or(m.t == 0, z3.And(m.t != 0, r > hi))])]
+    S(r"^(core::num::<impl \w+>|\w+)::next_multiple_of$", s_next_multiple_of)
+    S(r"^(core::num::<impl \w+>|\w+)::pow$", lambda e, st, c, a, d: (_ for _ in ()).throw(EngineAbort("pow is not modelled")))
